@@ -173,99 +173,266 @@ def eval_side(mirobj, lir, params, arg_terms, overflow_checks):
     raise M.Unsupported("no Return")
 
 
-CF_SUPPORTED = SUPPORTED | {"Jump", "Switch"}
+CF_SUPPORTED = SUPPORTED | {"Jump", "Switch", "Offset", "Write", "Read", "Copy", "Call"}
 
 
-def eval_path(mirobj, blocks, params, arg_terms, overflow_checks, decide, k_loop):
-    """One path of the evaluator over the LIR of `main` WITH its block structure. Jump / Switch are followed (the
-    examinee goes through the MIR of IrValue::switch_on; the branch table lookup is modelled: first entry whose index
-    equals the examinee, else default). Wherever the evaluator could stop loudly the path continues only on the
-    inputs on which it does not (force-decide); if there are none the path is cut."""
+class MemModel:
+    """Model of `lir::eval::Memory` (eval.rs): frames of zero-initialised allocations, a table of pointers
+    (stack index, frame id, allocation index, offset), every access checked the way `Allocation::read/write` and
+    `Memory::read_slice/write` check it (in bounds; offset a multiple of the access size; the frame the pointer was
+    made in is still the frame at that stack index) - a failed check is a loud stop. The Kani harnesses
+    c20_memory_* decide that the real `Memory` behaves like this; offsets and sizes are constants of the LIR, so
+    everything but the byte contents is concrete here."""
+
+    def __init__(self):
+        self.id_counter = 1
+        self.pointers = []
+        self.stack = [{"id": 0, "ret": None, "place": None, "allocs": []}]
+
+    def allocate(self, n):
+        fr = self.stack[-1]
+        fr["allocs"].append([z3.BitVecVal(0, 8)] * n)
+        self.pointers.append((len(self.stack) - 1, fr["id"], len(fr["allocs"]) - 1, 0))
+        return len(self.pointers) - 1
+
+    def _ptr(self, p):
+        if p >= len(self.pointers):
+            raise M.Loud("pointer index out of range")
+        return self.pointers[p]
+
+    def offset_by(self, p, off):
+        si, sid, ai, o = self._ptr(p)
+        self.pointers.append((si, sid, ai, o + off))
+        return len(self.pointers) - 1
+
+    def _alloc(self, p, n):
+        si, sid, ai, o = self._ptr(p)
+        if si >= len(self.stack) or self.stack[si]["id"] != sid:
+            raise M.Loud("access through a pointer into a popped frame")
+        a = self.stack[si]["allocs"][ai]
+        if o + n > len(a):
+            raise M.Loud("memory access out of bounds")
+        if (n == 0 and o != 0) or (n != 0 and o % n != 0):
+            raise M.Loud("memory access is unaligned")
+        return a, o
+
+    def write(self, p, bs):
+        a, o = self._alloc(p, len(bs))
+        a[o:o + len(bs)] = list(bs)
+
+    def read_slice(self, p, n):
+        a, o = self._alloc(p, n)
+        return a[o:o + n]
+
+    def copy(self, to, frm, n):
+        self.write(to, list(self.read_slice(frm, n)))
+
+    def push_frame(self, ret, place):
+        self.stack.append({"id": self.id_counter, "ret": ret, "place": place, "allocs": []})
+        self.id_counter += 1
+
+    def pop_frame(self):
+        if len(self.stack) == 1:
+            return None
+        return self.stack.pop()
+
+
+def _varkey(d):
+    f = dict(d.fields)
+    sc = f["scope"]
+    sc = sc.items[0] if isinstance(sc, D) else sc
+    k = f["kind"]
+    if isinstance(k, D):
+        inner = k.items[0]
+        if isinstance(inner, D):
+            inner = inner.items[0]
+        return f"{sc}/{k.name}:{inner}"
+    return f"{sc}/{k}"
+
+
+def _items_of(dump):
+    """name -> {blocks: [(label, [instr text])], scope, entry, return_ptr, params: [(name, irtype)], slots: [(varkey, size)]}"""
+    items = {}
+    order = []
+    for name, blocks in dump.get("lir_blocks", {}).items():
+        meta = {"blocks": blocks, "params": [], "slots": []}
+        for line in dump.get("lir_meta", {}).get(name, []):
+            k, v = line.split("=", 1)
+            if k == "scope":
+                meta["scope"] = parse_debug(v).items[0]
+            elif k == "entry":
+                meta["entry"] = v
+            elif k in ("return_ptr", "context"):
+                meta[k] = v == "true"
+            elif k == "param":
+                ident, ty = v.rsplit(" ", 1)
+                meta["params"].append((parse_debug(ident).items[0], ty))
+            elif k == "slot":
+                size, var = v.split(" ", 1)
+                meta["slots"].append((_varkey(parse_debug(var)), int(size)))
+        items[name] = meta
+        order.append(name)
+    return items, order
+
+
+def eval_path(mirobj, dump, params, arg_terms, overflow_checks, decide, k_loop):
+    """One path of the evaluator over the LIR of the whole package, starting at `pkg.main`. Every instruction arm
+    (arithmetic, comparisons, Assign, Offset, Write, Read, Copy) is the MIR of the real `eval`; `eval::Memory` is
+    MemModel; Jump / Switch / Call / Return and eval's prologue are modelled after eval.rs (flat variable map
+    keyed by (scope, kind); a call pushes a frame, allocates the callee's stack slots in it, binds the return
+    pointer and the parameters in order and jumps to the entry block; a return pops the frame, stores the value
+    in the call's `to` and continues after the call). Wherever the evaluator could stop loudly the path continues
+    only on the inputs on which it does not; if there are none the path is cut."""
+    items, order = _items_of(dump)
+    if "pkg.main" not in items or "scope" not in items["pkg.main"]:
+        raise M.Unsupported("no LIR metadata captured for pkg.main")
+    main = items["pkg.main"]
+    if main.get("return_ptr"):
+        raise M.Unsupported("entry function returns through a pointer")
+    mem = MemModel()
     vars_ = {}
     for (n, t), term in zip(params, arg_terms):
-        vars_[f"Explicit:{n}"] = irvalue_of(t, term)
-    bmap = {label: ins for label, ins in blocks}
-    label = blocks[0][0]
-    visits = {}
+        vars_[f"{main['scope']}/Explicit:{n}"] = irvalue_of(t, term)
+    if [n for n, _ in main["params"]] != [n for n, _ in params]:
+        raise M.Unsupported("parameter list of the captured LIR differs from the program's")
 
-    def varkey(d):
-        k = dict(d.fields)["kind"]
-        if isinstance(k, D):
-            inner = k.items[0]
-            if isinstance(inner, D):
-                inner = inner.items[0]
-            return f"{k.name}:{inner}"
-        return str(k)
+    def ptr_value(i):
+        return M.EnumV("IrValue", "Pointer", [M.Scalar(z3.BitVecVal(i, 64), "usize")])
+
+    vars_[f"{main['scope']}/Context"] = ptr_value(0)       # what verif_api::eval_main passes as context
+    for key, size in main["slots"]:
+        vars_[key] = ptr_value(mem.allocate(size))
+    label_pos = {}
+    for name in order:
+        for bi, (label, _) in enumerate(items[name]["blocks"]):
+            label_pos[label] = (name, bi)
+    cur, bi, ii = "pkg.main", label_pos[main["entry"]][1], 0
+    visits = {}
 
     def operand(v):
         if v.name == "Place":
-            key = varkey(v.items[0])
+            key = _varkey(v.items[0])
             if key not in vars_:
                 raise M.Unsupported(f"read of unknown variable {key}")
             return vars_[key]
         return lit_irvalue(v.items[0])
 
-    while True:
+    def goto(label):
+        nonlocal cur, bi, ii
+        cur, bi = label_pos[label]
+        ii = 0
         visits[label] = visits.get(label, 0) + 1
         if visits[label] > 4 * k_loop + 4:
             raise PathCut("evaluator loop bound")
-        jumped = False
-        for text in bmap[label]:
-            d = parse_debug(text)
-            if d.name not in CF_SUPPORTED:
-                raise M.Unsupported(f"LIR instruction {d.name}")
-            if d.name == "Jump":
-                label = f"{d.items[0].name}({d.items[0].items[0]})"
-                jumped = True
-                break
-            if d.name == "Return":
-                inner = d.items[0]
-                if not isinstance(inner, D) or inner.name != "Some":
-                    raise M.Unsupported("Return(None)")
-                return operand(inner.items[0])
-            if d.name == "Switch":
-                f = dict(d.fields)
-                ex = operand(f["examinee"])
-                it = M.Interp(mirobj, overflow_checks, {})
-                f2 = mirobj.fn(r"lir::value::<impl at src/lir/value\.rs:[\d: ]+>::switch_on$")
-                try:
-                    x = it.run(f2, "bb0", M._Env({f2["params"][0]: M.Ref(lambda ex=ex: ex)}), 1)
-                except M.Loud:
-                    raise PathCut("loud")
-                x64 = z3.ZeroExt(32, x.t)
-                target = None
-                for entry in f["branches"].items:
-                    idx, lab = entry.items
-                    if decide(z3.simplify(x64 == z3.BitVecVal(int(idx), 64)), f"switch {idx}"):
-                        target = lab
-                        break
-                if target is None:
-                    target = f["default"]
-                label = f"{target.name}({target.items[0]})"
-                jumped = True
-                break
-            fields, operand_values = [], []
-            for k, v in d.fields:
-                if isinstance(v, D) and v.name in ("Place", "Value"):
-                    val = operand(v)
-                    o = M.EnumV("Operand", v.name, [M.Opaque("inner")])
-                    operand_values.append((o, val))
-                    fields.append(o)
-                elif k == "cmp":
-                    fields.append(M.EnumV("IntCmp" if d.name == "IntCmp" else "FloatCmp", v, []))
-                elif k == "signed":
-                    fields.append(M.Scalar(z3.BoolVal(v == "true"), "bool"))
-                else:
-                    fields.append(M.Opaque(k))
-            st, val, lc = M.run_instruction(mirobj, d.name, fields, operand_values, overflow_checks)
-            for _, c in lc:
-                if not decide(z3.Not(c), "not-loud", force=True):
-                    raise PathCut("loud")
-            if st == "loud":
+
+    steps = 0
+    while True:
+        steps += 1
+        if steps > 4000:
+            raise PathCut("evaluator step bound")
+        blocks = items[cur]["blocks"]
+        if ii >= len(blocks[bi][1]):
+            # the evaluator's instruction list is flat: a block without terminator continues in the next one
+            if bi + 1 >= len(blocks):
+                raise M.Unsupported("control falls off the end of an item")
+            bi, ii = bi + 1, 0
+            continue
+        d = parse_debug(blocks[bi][1][ii])
+        if d.name not in CF_SUPPORTED:
+            raise M.Unsupported(f"LIR instruction {d.name}")
+        if d.name == "Jump":
+            goto(f"{d.items[0].name}({d.items[0].items[0]})")
+            continue
+        if d.name == "Return":
+            inner = d.items[0]
+            val = operand(inner.items[0]) if isinstance(inner, D) and inner.name == "Some" else None
+            fr = mem.pop_frame()
+            if fr is None:
+                if val is None:
+                    raise M.Unsupported("Return(None) from the entry function")
+                return val
+            if val is not None:
+                if fr["place"] is None:
+                    raise M.Loud("return value without a return place")    # `return_place.unwrap()`
+                vars_[fr["place"]] = val
+            cur, bi, ii = fr["ret"]
+            continue
+        if d.name == "Call":
+            f = dict(d.fields)
+            callee = f["func"].items[0]
+            if callee not in items or "scope" not in items[callee]:
+                raise M.Unsupported(f"call of {callee}: no LIR captured")
+            cx = f["ctx"]
+            ctx_val = operand(cx.items[0]) if isinstance(cx, D) and cx.name == "Some" else None
+            ci = items[callee]
+            to = f["to"]
+            place = _varkey(to.items[0].items[0]) if isinstance(to, D) and to.name == "Some" else None
+            mem.push_frame((cur, bi, ii + 1), place)
+            for key, size in ci["slots"]:
+                vars_[key] = ptr_value(mem.allocate(size))
+            rp = f["return_ptr"]
+            if isinstance(rp, D) and rp.name == "Some":
+                key = _varkey(rp.items[0])
+                if key not in vars_:
+                    raise M.Unsupported(f"read of unknown variable {key}")
+                vars_[f"{ci['scope']}/Return"] = vars_[key]
+            if ctx_val is not None:
+                vars_[f"{ci['scope']}/Context"] = ctx_val
+            for (pn, _), a in zip(ci["params"], f["args"].items):
+                vars_[f"{ci['scope']}/Explicit:{pn}"] = operand(a)
+            if len(mem.stack) > 12:
+                raise PathCut("evaluator call depth bound")
+            goto(ci["entry"])
+            continue
+        if d.name == "Switch":
+            f = dict(d.fields)
+            ex = operand(f["examinee"])
+            it = M.Interp(mirobj, overflow_checks, {})
+            f2 = mirobj.fn(r"lir::value::<impl at src/lir/value\.rs:[\d: ]+>::switch_on$")
+            try:
+                x = it.run(f2, "bb0", M._Env({f2["params"][0]: M.Ref(lambda ex=ex: ex)}), 1)
+            except M.Loud:
                 raise PathCut("loud")
-            vars_[varkey(dict(d.fields)["to"])] = val
-        if not jumped:
-            raise M.Unsupported("block falls through")
+            x64 = z3.ZeroExt(32, x.t)
+            target = None
+            for entry in f["branches"].items:
+                idx, lab = entry.items
+                if decide(z3.simplify(x64 == z3.BitVecVal(int(idx), 64)), f"switch {idx}"):
+                    target = lab
+                    break
+            if target is None:
+                target = f["default"]
+            goto(f"{target.name}({target.items[0]})")
+            continue
+        fields, operand_values = [], []
+        for k, v in d.fields:
+            if isinstance(v, D) and v.name in ("Place", "Value"):
+                val = operand(v)
+                o = M.EnumV("Operand", v.name, [M.Opaque("inner")])
+                operand_values.append((o, val))
+                fields.append(o)
+            elif k == "cmp":
+                fields.append(M.EnumV("IntCmp" if d.name == "IntCmp" else "FloatCmp", v, []))
+            elif k == "signed":
+                fields.append(M.Scalar(z3.BoolVal(v == "true"), "bool"))
+            elif k == "ty" and d.name == "Read":
+                fields.append(M.EnumV("IrType", v, []))
+            elif k in ("offset", "size") and d.name in ("Offset", "Copy"):
+                fields.append(M.Scalar(z3.BitVecVal(int(v), 32), "u32"))
+            else:
+                fields.append(M.Opaque(k))
+        try:
+            st, val, lc = M.run_instruction(mirobj, d.name, fields, operand_values, overflow_checks, mem, lambda c, why: decide(z3.simplify(c), why))
+        except M.Loud:
+            raise PathCut("loud")
+        for _, c in lc:
+            if not decide(z3.Not(c), "not-loud", force=True):
+                raise PathCut("loud")
+        if st == "loud":
+            raise PathCut("loud")
+        if st == "value":
+            vars_[_varkey(dict(d.fields)["to"])] = val
+        ii += 1
 
 
 def check_program_cf(mirobj, prog, dump, k_loop=3, timeout_ms=20000):
@@ -275,6 +442,17 @@ def check_program_cf(mirobj, prog, dump, k_loop=3, timeout_ms=20000):
     blocks = dump.get("lir_blocks", {}).get("pkg.main")
     if blocks is None:
         out["status"], out["reason"] = "unsupported", "no LIR captured"
+        return out
+    # instruction kinds that are outside engine M by design are recognised before anything is explored
+    for name, bl in dump.get("lir_blocks", {}).items():
+        for _, ins in bl:
+            for text in ins:
+                k = re.match(r"\w+", text).group(0)
+                if k not in CF_SUPPORTED:
+                    out["status"], out["reason"] = "unsupported", f"mir: LIR instruction {k}"
+                    return out
+    if any(l == "return_ptr=true" for l in dump.get("lir_meta", {}).get("pkg.main", [])) or any(t not in TAG_OF for _, t in entry.params):
+        out["status"], out["reason"] = "unsupported", "mir: entry function takes or returns a non-scalar"
         return out
     ref_args, cons = [], []
     for (n, t) in entry.params:
@@ -305,7 +483,7 @@ def check_program_cf(mirobj, prog, dump, k_loop=3, timeout_ms=20000):
         prof = "overflow-checks=" + ("on" if ovf else "off")
         try:
             ex2 = Explorer(cons, 48, timeout_ms)
-            epaths = ex2.explore(lambda decide: eval_path(mirobj, blocks, entry.params, ref_args, ovf, decide, k_loop))
+            epaths = ex2.explore(lambda decide: eval_path(mirobj, dump, entry.params, ref_args, ovf, decide, k_loop))
             out["queries"] += ex2.queries
         except M.Unsupported as e:
             out["status"], out["reason"] = "unsupported", "mir: " + str(e)
@@ -359,6 +537,7 @@ def check_program_cf(mirobj, prog, dump, k_loop=3, timeout_ms=20000):
                     out["status"], out["reason"] = "unsupported", "solver timeout"
                     return out
         done = len([1 for _, r in epaths if not isinstance(r, PathCut)])
+        out.setdefault("completing_paths", {})["on" if ovf else "off"] = done
         out["profiles"][prof.replace("-", "_").replace("=", "_")] = f"{done} evaluator path(s) x {len(cpaths)} compiled path(s), {compared} pairs compared: agree wherever the evaluator does not stop loudly"
     return out
 
